@@ -2267,3 +2267,21 @@ def m_option_prim_eq(ex, st, call):
     b = deref(ex, st, call.args[1])
     e = val_eq2(ex, st, a, b)
     return ex.ret(st, call, Bool(e if call.norm.endswith('::eq') else z3.Not(e)))
+
+
+@model(r'^(u8|u16|u32|u64|usize)::saturating_mul$')
+def m_saturating_mul(ex, st, call):
+    a, b = call.args
+    w = a.width
+    wide = z3.ZeroExt(w, a.e) * z3.ZeroExt(w, b.e)
+    ov = z3.Extract(2 * w - 1, w, wide) != 0
+    return ex.ret(st, call, Int(z3.If(ov, z3.BitVecVal((1 << w) - 1, w), z3.Extract(w - 1, 0, wide)), False))
+
+
+@model(r'^(u8|u16|u32|u64|usize)::checked_mul$')
+def m_checked_mul(ex, st, call):
+    a, b = call.args
+    w = a.width
+    wide = z3.ZeroExt(w, a.e) * z3.ZeroExt(w, b.e)
+    ov = z3.Extract(2 * w - 1, w, wide) != 0
+    return ex.ret(st, call, ex.option_ite(z3.Not(ov), Int(z3.Extract(w - 1, 0, wide), False)))
